@@ -74,7 +74,10 @@ func NewHierarchicalConjunctiveThresholdAccessStructure(levels ...*ThresholdLeve
 			return nil, ErrValue.WithMessage("thresholds must be less than or equal to the number of parties")
 		}
 
-		ls = append(ls, &ThresholdLevel{l.threshold, parties.List()})
+		// parties.List() iterates a hash set: sort, so that equal access structures encode to equal bytes
+		sortedParties := parties.List()
+		slices.Sort(sortedParties)
+		ls = append(ls, &ThresholdLevel{l.threshold, sortedParties})
 	}
 
 	h := &HierarchicalConjunctiveThreshold{levels: ls}
